@@ -296,19 +296,20 @@ Fixpoint ns_insert (e : nsentry) (l : list nsentry) : list nsentry :=
 (* stable: an element is inserted after the elements already present with an equal key *)
 Definition ns_sort (l : list nsentry) : list nsentry := fold_left (fun acc e => ns_insert e acc) l [].
 (* the accumulation loop: wpartial += w ; vec[j] = G(wpartial / wtotal) ; undefined -> undefined *)
-Fixpoint ns_cum (wtotal acc : Q) (l : list nsentry) : list (nat * option Q) :=
+Fixpoint ns_cum (wtotal acc : Q) (l : list nsentry) : list (nat * option Q * option Q) :=
   match l with
   | [] => []
-  | (j, Some _, w) :: r => let acc' := Qred (acc + w) in (j, Some (Qred (acc' / wtotal))) :: ns_cum wtotal acc' r
-  | (j, None, _) :: r => (j, None) :: ns_cum wtotal acc r
+  | (j, Some v, w) :: r => let acc' := Qred (acc + w) in
+                           (j, Some v, Some (Qred (acc' / wtotal))) :: ns_cum wtotal acc' r
+  | (j, None, _) :: r => (j, None, None) :: ns_cum wtotal acc r
   end.
 Fixpoint ns_entries (i : nat) (data : list (option Q)) (wt : list Q) : list nsentry :=
   match data with
   | [] => []
   | d :: r => (i, d, match wt with [] => 1 | w :: _ => w end) :: ns_entries (S i) r (tl wt)
   end.
-(* probabilities by sample, in sorted order.  None = the error exits (no sample, negative weight, total <= 0) *)
-Definition ns_probs (data : list (option Q)) (wt : list Q) : option (list (nat * option Q)) :=
+(* (index, value, probability) in sorted order.  None = the error exits (no sample, negative weight, total <= 0) *)
+Definition ns_probs (data : list (option Q)) (wt : list Q) : option (list (nat * option Q * option Q)) :=
   let es := ns_entries 0 data wt in
   let defd := filter (fun e => match snd (fst e) with Some _ => true | None => false end) es in
   if existsb (fun e => qltb (snd e) 0) defd then None
@@ -317,8 +318,8 @@ Definition ns_probs (data : list (option Q)) (wt : list Q) : option (list (nat *
     let nech := natQ (length defd) in
     if qleb wtotal 0 then None
     else Some (ns_cum (Qred (wtotal * ((1 + nech) / nech))) 0 (ns_sort es)).
-Definition ns_lookup (res : list (nat * option Q)) (i : nat) : option Q :=
-  match find (fun p => Nat.eqb (fst p) i) res with Some (_, o) => o | None => None end.
+Definition ns_lookup (res : list (nat * option Q * option Q)) (i : nat) : option Q :=
+  match find (fun p => Nat.eqb (fst (fst p)) i) res with Some (_, _, o) => o | None => None end.
 
 (* ------------------------------------------------------------------ AnamEmpirical *)
 (* first index with x <= T[idisc] (from below), last index with x >= T[idisc] (from above) *)
